@@ -267,9 +267,11 @@ type runObs struct {
 func (o runObs) sx() Sx { return SL{SB(o.stdout), I(o.exit), Bool(o.blocked), Bool(o.crashed)} }
 
 func (e *c10env) runBin(cwd string, argv []string, stdin []byte, stdinMode int) runObs {
-	to := 10 * time.Second
-	if atomic.LoadInt32(&e.blocked) >= 3 {
-		to = 2 * time.Second // a blocking defect is established; do not spend 10 s on every further case
+	// generous: an ordinary run takes milliseconds; only a run that really blocks gets here,
+	// even on a heavily loaded machine
+	to := 30 * time.Second
+	if atomic.LoadInt32(&e.blocked) >= 2 {
+		to = 10 * time.Second // a blocking defect is established; do not spend 30 s on every further case
 	}
 	ctx, cancel := context.WithTimeout(context.Background(), to)
 	defer cancel()
